@@ -1,3 +1,98 @@
-use crate::run::{Ctx, Ev};
+//! C12 - trading fees are exact, charged once, and routed to the right pools.
+use serde_json::json;
+
+use super::engine_refs::*;
+use crate::refmodel::*;
+use crate::run::{pq_field_u, Ctx, Ev};
+use crate::types::*;
 use crate::world::World;
-pub fn step(_ctx: &Ctx, _w: &World, _ev: &mut Ev) {}
+
+fn ratio_class(r: U, d: U) -> &'static str {
+    if r == 0 {
+        "zero"
+    } else if r == 1 {
+        "one_ulp"
+    } else if r >= d {
+        "one"
+    } else {
+        "frac"
+    }
+}
+
+pub fn step(ctx: &Ctx, w: &World, ev: &mut Ev) {
+    if w.cfg.kind != WorldKind::Standard || !ctx.out.ok {
+        return;
+    }
+    let d = w.d;
+    let ifund = w.addrs.insurance_fund.clone();
+    let fpool = w.addrs.fee_pool.clone();
+    let actor = w.resolve(&ctx.step.actor);
+    // inflows as they concern fees: anything reaching the pools that is not the engine settling funding / liquidation proceeds
+    let to_if = ctx.inflow(&ifund);
+    let to_fp = ctx.inflow(&fpool);
+    match &ctx.step.op {
+        Op::Open { vamm, .. } => {
+            let v = *vamm;
+            let vo = &ctx.pre.vamms[v];
+            let class = match classify_open(ctx, w) {
+                Some(c) => c,
+                None => return,
+            };
+            let (es, et) = match (fee(class.n, vo.spread, d), fee(class.n, vo.toll, d)) {
+                (Some(a), Some(b)) => (a, b),
+                _ => return,
+            };
+            let rounds0 = (vo.spread > 0 && es == 0) || (vo.toll > 0 && et == 0);
+            ev.eval(vo.spread > 0 || vo.toll > 0, &("open", class.kind, rounds0, ratio_class(vo.spread, d), ratio_class(vo.toll, d)), || {
+                json!({"open": class.kind.s(), "notional": class.n.to_string(), "spread_ratio": vo.spread.to_string(), "toll_ratio": vo.toll.to_string(), "to_insurance_fund": to_if.to_string(), "to_fee_pool": to_fp.to_string()})
+            });
+            if rounds0 {
+                ev.count("fee_rounds_to_zero");
+            }
+            if matches!(class.kind, OpenKind::Reverse | OpenKind::DustReverse) {
+                ev.count("fee_on_reversal");
+            }
+            if to_if != es {
+                let shape = if to_if == es.saturating_mul(2) { "double" } else if to_if == es + et { "both_to_if" } else { "other" };
+                ev.violation("open_fee_if", &format!("{},{}", class.kind.s(), shape), json!({"to_insurance_fund": to_if.to_string(), "expected": es.to_string(), "notional": class.n.to_string()}));
+            }
+            if to_fp != et {
+                let shape = if to_fp == et.saturating_mul(2) { "double" } else { "other" };
+                ev.violation("open_fee_pool", &format!("{},{}", class.kind.s(), shape), json!({"to_fee_pool": to_fp.to_string(), "expected": et.to_string(), "notional": class.n.to_string()}));
+            }
+        }
+        Op::Close { vamm, .. } => {
+            let v = *vamm;
+            let pos = match ctx.pre.position(v, &actor) {
+                Some(p) if p.size != 0 => p.clone(),
+                _ => return,
+            };
+            let moved = ctx.post.vamms[v].size - ctx.pre.vamms[v].size;
+            if moved != -pos.size {
+                ev.count("partial_close_fee_not_asserted");
+                return;
+            }
+            let (qs, qt) = match (pq_field_u(ctx.preq, "calc_fee_notional", "spread_fee"), pq_field_u(ctx.preq, "calc_fee_notional", "toll_fee")) {
+                (Some(a), Some(b)) => (a, b),
+                _ => return,
+            };
+            let vo = &ctx.pre.vamms[v];
+            ev.eval(vo.spread > 0 || vo.toll > 0, &("close", qs == 0, qt == 0, ratio_class(vo.spread, d), ratio_class(vo.toll, d)), || {
+                json!({"close": "whole", "open_notional": pos.notional.to_string(), "quoted_spread_fee": qs.to_string(), "quoted_toll_fee": qt.to_string()})
+            });
+            if to_if != qs || to_fp != qt {
+                ev.violation("close_fee", if to_if != qs { "insurance_fund" } else { "fee_pool" }, json!({"to_insurance_fund": to_if.to_string(), "to_fee_pool": to_fp.to_string(), "quoted_spread": qs.to_string(), "quoted_toll": qt.to_string()}));
+            }
+        }
+        Op::Deposit { .. } | Op::Withdraw { .. } | Op::PayFunding { .. } | Op::Liquidate { .. } => {
+            let kind = ctx.step.op.kind();
+            ev.eval(ctx.pre.vamms.iter().any(|v| v.toll > 0 || v.spread > 0), &("nofee", kind), || json!({"op": kind, "fee_pool_delta": ctx.delta(&fpool).to_string()}));
+            // no trading fee: fee pool untouched, and nothing flows from a trader's wallet to the insurance fund
+            let trader_to_if = ctx.ledger.iter().filter(|x| x.to == ifund && x.from != w.addrs.engine).map(|x| x.amount).sum::<u128>();
+            if ctx.delta(&fpool) != 0 || to_fp != 0 || trader_to_if != 0 {
+                ev.violation("no_fee_op", kind, json!({"fee_pool_delta": ctx.delta(&fpool).to_string(), "wallet_to_insurance_fund": trader_to_if.to_string()}));
+            }
+        }
+        _ => {}
+    }
+}
